@@ -137,8 +137,12 @@ class Summaries:
         else:
             val = flow.simplify_term(T._call(s["term"], bb, 0))
             if s["kind"] == "residual":
-                # `?` error edge: Err(residual)
-                val = ("agg", "core::result::Result", "Err", (("0", ("residual", val)),))
+                # `?` error edge: Err(residual) — or None when the function returns an Option
+                rty = (body.locals[0].get("ty") or "") if body.locals else ""
+                if rty.startswith("core::option::Option<"):
+                    val = ("agg", "core::option::Option", "None", ())
+                else:
+                    val = ("agg", "core::result::Result", "Err", (("0", ("residual", val)),))
         vp, inner = variant_path(val)
         return Outcome(vp, val, conds, (body, bb, s["line"]), body.path)
 
@@ -225,6 +229,37 @@ class Summaries:
             res.extend(self._expand(n, depth + 1))
         return res
 
+    def evaluate(self, body, binding, keep_undecided=True):
+        """Rows of the decision table of `body` that remain feasible when the terms in `binding` (e.g. parameters) are
+        replaced by the given abstract values; decided conditions are dropped.  Evaluating the extracted table on a
+        finite product of abstract inputs — no code of the repository runs."""
+        rows = []
+        for o in self.outcomes(body):
+            conds = []
+            feasible = True
+            for t, l, f, w in o.conds:
+                t2 = t
+                for old, new in binding.items():
+                    t2 = replace(t2, old, new)
+                t2 = flow.simplify_term(t2)
+                d = decide(t2, l, self.p)
+                if d is False or flow.term_contains(t2, lambda x: x == ("never",)):
+                    feasible = False
+                    break
+                if d is None:
+                    conds.append((t2, l, f, w))
+            if not feasible:
+                continue
+            v = o.value
+            for old, new in binding.items():
+                v = replace(v, old, new)
+            v = flow.simplify_term(v)
+            vp, _ = variant_path(v)
+            if contradictory(conds):
+                continue
+            rows.append(Outcome(vp, v, conds, o.site, o.fn))
+        return rows
+
     def _forwarded(self, inner, c):
         return c if flow.term_contains(inner, lambda x: x == c) else None
 
@@ -239,9 +274,15 @@ def replace(term, old, new):
     return tuple(replace(x, old, new) if isinstance(x, (tuple, frozenset)) else x for x in term)
 
 
-def decide(term, labels):
+def decide(term, labels, program=None):
     """Try to decide `term ∈ labels` once the callee's value is substituted.
     Returns True (holds, drop the condition), False (infeasible) or None (keep)."""
+    if program is not None and isinstance(term, tuple) and term and term[0] == "discr" and isinstance(term[1], tuple) and term[1] and term[1][0] == "agg":
+        a = program.adts.get(term[1][1])
+        if a is not None:
+            for v in a.get("variants", []):
+                if v["name"] == term[1][2] and v.get("discr") is not None:
+                    return _in(str(v["discr"]), labels)
     # discriminant of a known aggregate
     if isinstance(term, tuple) and term and term[0] == "discr":
         inner = term[1]
